@@ -36,6 +36,37 @@ def impl(nodes):
         return {'error': 'Recursion'}
     return {'viable': [o.is_viable for o in objs], 'necessary': [o.is_necessary for o in objs]}
 
+def rerun_problem(nodes, rnd):
+    """analysing the same graph object again: after a complete run, and after a run that stopped half-way on the
+    AssertionError of an invalid defense status which the caller then repaired (Props/C08.lean: rerun_is_fresh_run)"""
+    from maltoolbox.attackgraph.analyzers.apriori import calculate_viability_and_necessity
+    orc = oracle(nodes)
+    g, objs = build_graph(nodes)
+    labels = lambda: {'viable': [o.is_viable for o in objs], 'necessary': [o.is_necessary for o in objs]}
+    defs = [i for i, n in enumerate(nodes) if n['type'] == 'defense']
+    aborted = False
+    if defs and rnd.random() < 0.7:
+        k = rnd.choice(defs); good = objs[k].defense_status
+        objs[k].defense_status = rnd.choice([50.0, -1.0, None])
+        try:
+            calculate_viability_and_necessity(g)
+        except (AssertionError, TypeError):
+            aborted = True
+        except RecursionError:
+            return None, False
+        objs[k].defense_status = good
+    try:
+        calculate_viability_and_necessity(g)
+        first = labels()
+        calculate_viability_and_necessity(g)
+    except RecursionError:
+        return None, aborted
+    if any(first[k] != orc[k] for k in ('viable', 'necessary')):
+        return ('after an aborted run and its repair, ' if aborted else '') + 'analysing the graph again does not give the greatest fixed point', aborted
+    if labels() != first:
+        return 'a second run of the analysis changes the labels', aborted
+    return None, aborted
+
 def oracle(nodes):
     """independent reference: greatest fixed point by Kleene iteration from top"""
     n = len(nodes)
@@ -227,12 +258,29 @@ def run(seed, tier, lean) -> Result:
                         break
         if len(res.samples) < 3 and len(nodes) >= 3 and 'error' not in im and not all(im['viable']):
             res.samples.append({'nodes': nodes, 'impl': im, 'model': mo})
+    # re-runs on the same graph object (oracle only)
+    r2 = random.Random(seed ^ 0xC08)
+    for _ in range(600 if tier == 'quick' else 20000):
+        nodes = random_graph(r2, 8)
+        rs = r2.getrandbits(32)
+        bad, aborted = rerun_problem(nodes, random.Random(rs))
+        res.evaluations += 1; res.bump('rerun_after_abort' if aborted else 'rerun')
+        if bad:
+            def failing(ns):
+                try: return rerun_problem(ns, random.Random(rs))[0] is not None
+                except Exception: return False
+            small = shrink(nodes, failing)
+            res.violations.append(Violation(what=bad, fingerprint='C08:rerun:' + bad[:40], replay={'rerun_nodes': small, 'rerun_seed': rs, 'problem': bad}))
+            break
     if not res.samples:
         res.samples.append({'nodes': cases[-1], 'impl': impl_out[-1]})
     return res
 
 def replay(path):
     r = json.load(open(path))
+    if 'rerun_nodes' in r:
+        bad, _ = rerun_problem(r['rerun_nodes'], random.Random(r['rerun_seed'])); print(bad)
+        print('VIOLATION reproduced' if bad else 'not reproduced'); return 1 if bad else 0
     nodes = r['nodes']
     im, orc = impl(nodes), oracle(nodes)
     print('impl  ', im); print('gfp   ', orc)
